@@ -101,6 +101,12 @@ func runLife(e *Env) {
 		return frame, false
 	}
 
+	if faultsOn && tp.Chance(1, 6) {
+		// the control connection's heartbeat goroutine is slow to start: it is held at its
+		// first instruction until the scheduler resumes it (possibly after Close)
+		k.SetPlan([]kernel.ParkSpec{{Point: "ctl.heartbeat.start", Nth: 1}})
+		k.Fault("control.heartbeat-goroutine-starts-late")
+	}
 	sess, err := Boot(k, cl, 20*time.Second, func() (*gocql.Session, error) { return gocql.NewSession(*cfg) })
 	if err != nil {
 		k.Violate("HARNESS", "life/boot", "session creation failed in a fault-free boot: %v", err)
@@ -108,6 +114,15 @@ func runLife(e *Env) {
 		return
 	}
 	if faultsOn {
+		// after session creation the answers to system-table queries (ring refreshes) may be
+		// slow too: they are held like query answers and delivered by the scheduler
+		cl.SystemFateFn = func(sc *node.SConn, rec *node.ReqRec) node.Fate {
+			if sc.Started && strings.Contains(rec.Req.Query, "FROM system.") && tp.Chance(1, 3) {
+				k.Fault("refresh.answer-held")
+				return node.Hold
+			}
+			return node.Auto
+		}
 		k.DrawPlan([]string{"rd.woke", "rd.beforeRefresh", "rd.stop", "ed.woke", "ed.stop", "sess.close.pool", "sess.close.control",
 			"sess.close.events", "sess.close.refresher", "sess.close.cancel", "ctl.heartbeat", "ctl.reconnect", "ctl.close",
 			"fill.upgrade", "fill.filling", "fill.stopping", "connect.dialed", "connect.dialed", "connect.dialed", "pool.handleError", "pool.close",
